@@ -99,3 +99,16 @@ package main
 //@   calls ChangeSet.AddTrash#1: requires !slot.want && slot.repl != nil && slot.repl.Mtime < bal.MinMtime && $0.SizedDigest == blkid && $0.Mtime == slot.repl.Mtime && $0.From == slot.mnt
 //@   calls ChangeSet.AddPull#1: requires slot.repl == nil && slot.want && !slot.mnt.ReadOnly && len(blk.Replicas) > 0 && $0.SizedDigest == blkid && $0.From == blk.Replicas[0].KeepMount.KeepService && $0.To == slot.mnt
 //@   calls keepclient.NewRootSorter#1: requires $0 == bal.serviceRoots && $1 == string(blkid)[0:32]
+
+// setupLookupTables: every mount of a read-only service ends up read-only
+// (so that balanceBlock never plans a trash or a pull on it), and no mount's
+// read-only flag is ever cleared.
+//@ spec macro roDone(bal, n) bool = forall a, b int :: 0 <= a && a < n && 0 <= b && b < len(mapat(bal.KeepServices, a).mounts) && mapat(bal.KeepServices, a).ReadOnly ==> mapat(bal.KeepServices, a).mounts[b].ReadOnly
+//@ spec macro roKept(dummy) bool = forall p *KeepMount :: old(p.ReadOnly) ==> p.ReadOnly
+//@ func Balancer.setupLookupTables property C05 safety -bounds,-nil
+//@   ensures roDone(bal, len(bal.KeepServices)) && roKept(0)
+//@   loop 1: invariant bal == old(bal) && roDone(bal, $i) && roKept(0)
+//@   loop 2: invariant bal == old(bal) && roDone(bal, $i1 - 1) && roKept(0) && srv == mapat(bal.KeepServices, $i1 - 1) && 0 < $i1 && $i1 <= len(bal.KeepServices)
+//@   loop 2: invariant forall b int :: 0 <= b && b < $i && srv.ReadOnly ==> srv.mounts[b].ReadOnly
+//@   loop 3: invariant bal == old(bal) && roDone(bal, $i1 - 1) && roKept(0) && srv == mapat(bal.KeepServices, $i1 - 1) && 0 < $i1 && $i1 <= len(bal.KeepServices)
+//@   loop 3: invariant forall b int :: 0 <= b && b < $i2 && srv.ReadOnly ==> srv.mounts[b].ReadOnly
